@@ -103,9 +103,10 @@ def main():
         return 1
     out = "/verif/seeded/" + sid
     os.makedirs(out, exist_ok=True)
-    shutil.copy(os.path.join(src, "patch.diff"), out)
-    for f in demo_files:
-        shutil.copy(os.path.join(src, f), os.path.join(out, f + (".txt" if f.endswith(".go") else "")))
+    if os.path.realpath(src) != os.path.realpath(out):
+        shutil.copy(os.path.join(src, "patch.diff"), out)
+        for f in demo_files:
+            shutil.copy(os.path.join(src, f), os.path.join(out, f + (".txt" if f.endswith(".go") else "")))
     meta["verified_by_me"] = {k: v for k, v in res.items() if not k.endswith("_tail")}
     meta["what_i_ran"] = ["scratch worktree of /repo HEAD: demo (pass), git apply patch.diff, go build+vet, demo (fail), full suite x2 (pass)" if not nosuite else "scratch worktree: demo pass / apply / build / demo fail (suite skipped)",
                           "in /repo: git apply patch.diff; every check's quick_cmd from MANIFEST.json; git checkout -- ."]
